@@ -250,8 +250,10 @@ def case_fold(case):
 
 
 # ---- hash iteration order -----------------------------------------------------------------------------
-def hash_ir(I, ir, lang, multi):
+def hash_ir(I, ir, lang, multi, tree="basic"):
     L = I.prog.layout
+    if tree == "glob":
+        return hash_ir_glob(I, ir, lang, multi)
     u32 = ir.special("U32")
     consts_ok = lang not in ("kotlin", "swift", "scala")
     fa = "a." + EXT[lang] if multi else "out." + EXT[lang]
@@ -277,16 +279,39 @@ def hash_ir(I, ir, lang, multi):
     return files
 
 
+def hash_ir_glob(I, ir, lang, multi):
+    """crates x and y both define `Item` (serde-renamed differently); crate z imports `x::*` and `y::Item` and refers to Item"""
+    L = I.prog.layout
+    u32 = ir.special("U32")
+
+    def pd_of(crate, items, imports=()):
+        pd = I.call_static("parser::ParsedData::new", [Agg("language::CrateName", [S(crate if multi else "")]), S("%s.%s" % (crate, EXT[lang]) if multi else "out." + EXT[lang]), multi])
+        cell = [pd]
+        for it in items:
+            I.call_static("parser::ParsedData::push", [Ref(cell, 0), it])
+        for (bc, tn) in imports:
+            imp = L.make_adt("visitors::ImportedType", [Agg("language::CrateName", [S(bc)]), S(tn)], ["base_crate", "type_name"])
+            cell[0].fields[L.structs["ParsedData"].index("import_types")].entries.append([imp, UNIT])
+        return cell[0]
+    files = [pd_of("x", [ir.item("Struct", ir.struct("Item", [ir.field("a", u32)], renamed="ItemV1", serde_rename=True)), ir.item("Struct", ir.struct("Xo", [ir.field("o", u32)]))]),
+             pd_of("z", [ir.item("Struct", ir.struct("User", [ir.field("item", ir.simple("Item")), ir.field("xo", ir.simple("Xo"))]))],
+                   [("x", "*"), ("y", "Item")] if multi else [])]
+    if multi:
+        files.insert(1, pd_of("y", [ir.item("Struct", ir.struct("Item", [ir.field("b", u32)], renamed="ItemV2", serde_rename=True))]))
+    return files
+
+
 def case_hash(case):
-    lang, multi = case
+    lang, multi = case[0], case[1]
+    tree = case[2] if len(case) > 2 else "basic"
     P = prog()
     I = new_interp(P)
     ir = IR(P.layout)
-    res = {"paths": 0, "violations": [], "case": [lang, multi]}
+    res = {"paths": 0, "violations": [], "case": list(case)}
 
     def entry(I):
         I.env["hash_order"] = "insertion"
-        files = hash_ir(I, ir, lang, multi)
+        files = hash_ir(I, ir, lang, multi, tree)
         m = collect(I, files)
         I.env["hash_order"] = "any"
         cell = [m]
@@ -317,6 +342,41 @@ def case_hash(case):
     return finish_case(I, res)
 
 
+def case_hash_ws(case):
+    """hash-iteration-order invariance of the whole folder-mode pipeline (real-syn AST -> visitor -> collector -> reconcile ->
+    all_types -> generate_types) on one of the C14 workspace templates"""
+    lang, form, pos = case
+    from checks import c14
+    P = prog()
+    I = new_interp(P)
+    res = {"paths": 0, "violations": [], "case": list(case)}
+    files, _ = c14.workspace(form, pos, "module")
+    CAP = 700
+
+    def entry(I):
+        I.env["hash_order"] = "any"
+        return c14.run_pipeline(I, lang, files, True, [ord("F"), ord("x")])
+
+    first = None
+    try:
+        for kind, out, pc in I.explore(entry, max_paths=CAP):
+            res["paths"] += 1
+            if kind == "panic":
+                res["violations"].append({"kind": "panic", "msg": out.msg}); break
+            o = {c: "".join(chr(x) for x in t[1]) for c, t in out.items()}
+            if first is None:
+                first = o
+            elif o != first:
+                d = [(c, first.get(c, "")[-80:], o.get(c, "")[-80:]) for c in sorted(set(first) | set(o)) if first.get(c) != o.get(c)]
+                res["violations"].append({"kind": "hash-order-dependent", "diff": d[:1]})
+                break
+    except Unsupported as e:
+        if "path budget" not in str(e):
+            raise
+        res["capped"] = True
+    return finish_case(I, res)
+
+
 def multisets(kinds, k):
     return list(itertools.combinations_with_replacement(kinds, k))
 
@@ -341,14 +401,20 @@ def run(rep, tier, only=None):
                     for j in range(k - 1):
                         perm = list(range(k)); perm[j], perm[j + 1] = perm[j + 1], perm[j]
                         cases.append((ms, tuple(perm), multi))
-    hcases = [(l, m) for l in LANGS for m in (False, True)]
+    hcases = [(l, m, "basic") for l in LANGS for m in (False, True)] + [(l, True, "glob") for l in LANGS]
     rep.bounds = {"fold": "arrival sequences of k files of one crate (+ a second crate in folder mode), one item per file of kind struct/enum/alias/const/(struct importing a foreign type), every multiset of kinds; "
                           "k=2,3 (quick) and 4 (thorough): every permutation against the identity; k=5,6 (thorough): adjacent transpositions on a seed-rotated subset; item names symbolic: T + one of the first k letters (three letters for k >= 5)",
-                  "hash": "one fixed two-file tree per language and mode; every iteration order of every iterated HashMap/HashSet (sizes <= 4)"}
+                  "hash": "two fixed trees per language (basic: imports + a serde-renamed type, both modes; glob: two crates defining the same Rust name with different serde renames, a third crate importing one by glob and one by name, folder mode); every iteration order of every iterated HashMap/HashSet (sizes <= 4)"}
     rep.outside = ["the directory walk itself (ignore crate) and the crossbeam channel: the collector sees an arbitrary sequence", "thread count (it only influences the arrival order)",
                    "ordering of error reports"]
     rep.assumptions = ["crossbeam Receiver iteration = the arrival sequence", "hash containers iterate in an arbitrary order chosen per iteration"]
-    groups = [("fold", "case_fold", cases), ("hash", "case_hash", hcases)]
+    from checks import c14 as _c14
+    if tier == "thorough":
+        wcases = [(l, f, p) for l in ("typescript", "kotlin") for f in _c14.FORMS for p in (("field", "map-value") if l == "typescript" else ("enum-struct",))]
+    else:
+        wcases = [("typescript", "single", "field"), ("kotlin", "same-name-c", "map-value")]
+    rep.bounds["hash-ws"] = "the folder-mode pipeline from source text on %d of the C14 workspace templates under every hash iteration order, up to 700 paths each (beyond: a prefix of the orders, reported as not exhaustive)" % len(wcases)
+    groups = [("fold", "case_fold", cases), ("hash", "case_hash", hcases), ("hash-ws", "case_hash_ws", wcases)]
     for gname, fn, cs in groups:
         if only and gname not in only:
             continue
@@ -370,7 +436,7 @@ def run(rep, tier, only=None):
                 if gname == "fold":
                     sig = {"group": "fold", "kind": v["kind"], "field": v.get("field"), "equal_names": v.get("equal_names"), "mode": "folder" if case[2] else "single"}
                 else:
-                    sig = {"group": "hash", "kind": v["kind"], "lang": case[0], "mode": "folder" if case[1] else "single"}
+                    sig = {"group": "hash", "kind": v["kind"], "lang": case[0], "mode": "folder" if case[1] else "single", "tree": case[2] if len(case) > 2 else "basic"}
                 ck = repr(sorted(sig.items()))
                 if ck in confirmed and confirmed[ck][0]:
                     ok, why, payload = confirmed[ck]
@@ -430,10 +496,28 @@ def native(gname, case, v):
             names = v.get("names") or "A" * len(kinds)
             texts = [render_file(kinds[i], i, names[i]) for i in range(len(kinds))]
             return native_fold(d, texts, multi, {"op": "fold", "kinds": "".join(kinds), "names": names, "multi": multi})
-        lang, multi = case
-        return native_hash(d, lang, multi)
+        if gname == "hash-ws":
+            return native_hash_ws(d, case)
+        return native_hash(d, case[0], case[1], case[2] if len(case) > 2 else "basic")
     finally:
         shutil.rmtree(d, ignore_errors=True)
+
+
+def native_hash_ws(d, case):
+    """repeated processes (fresh hash seeds) of the real binary on the workspace"""
+    import os
+    from checks import c14
+    lang, form, pos = case
+    files, _ = c14.workspace(form, pos, "module")
+    seen = {}
+    for i in range(30):
+        sub = os.path.join(d, "r%d" % i)
+        os.makedirs(sub)
+        rc, outs, se = c14.real_run(sub, lang, files, "Fx", True, "w")
+        seen.setdefault(tuple(sorted(outs.items())), i)
+        if len(seen) > 1:
+            return True, "typeshare --lang %s -d run repeatedly on the workspace (%s, %s) produced different bytes (runs %s)" % (lang, form, pos, sorted(seen.values())), {"op": "hash-ws", "lang": lang, "form": form, "position": pos}
+    return False, "30 runs of the real binary gave identical bytes", None
 
 
 def native_fold(d, texts, multi, payload):
@@ -484,7 +568,18 @@ def json_key(v):
     return json.dumps(v, sort_keys=True)
 
 
-def native_hash(d, lang, multi):
+def native_hash(d, lang, multi, tree_kind="basic"):
+    if tree_kind == "glob":
+        tree = {"x": {"lib.rs": "#[typeshare]\n#[serde(rename = \"ItemV1\")]\npub struct Item { pub a: u32 }\n#[typeshare]\npub struct Xo { pub o: u32 }\n"},
+                "y": {"lib.rs": "#[typeshare]\n#[serde(rename = \"ItemV2\")]\npub struct Item { pub b: u32 }\n"},
+                "z": {"lib.rs": "use x::*;\nuse y::Item;\n#[typeshare]\npub struct User { pub item: Item, pub xo: Xo }\n"}}
+        seen = {}
+        for i in range(40):
+            rc, outs = real_outputs(d, tree, lang, multi, "g%d" % i)
+            seen.setdefault(tuple(sorted(outs.items())), i)
+            if len(seen) > 1:
+                return True, "typeshare --lang %s -d run repeatedly on the same tree (x::Item and y::Item renamed differently, z has `use x::*; use y::Item;`) produced different bytes (runs %s)" % (lang, sorted(seen.values())), {"op": "hash", "lang": lang, "multi": multi, "tree": "glob"}
+        return False, "40 runs of the real binary gave identical bytes", None
     consts_ok = lang not in ("kotlin", "swift", "scala")
     a = "use b::{Tb, Tc};\n#[typeshare]\npub struct Sa { pub x: Tb, pub y: Tc }\n#[typeshare]\npub enum Ea { V }\n#[typeshare]\npub type Aa = Renamed;\n" + ("#[typeshare]\npub const KA: u32 = 1;\n" if consts_ok else "")
     b = "#[typeshare]\npub struct Tb { pub o: u32 }\n#[typeshare]\npub struct Tc { pub p: u32 }\n#[typeshare]\n#[serde(rename = \"Other\")]\npub struct Renamed { pub q: u32 }\n"
@@ -503,11 +598,13 @@ def replay(body):
     c = body["case"]
     d = tempfile.mkdtemp(prefix="c06-")
     try:
-        if c["op"] == "fold":
+        if c["op"] == "hash-ws":
+            ok, why, _ = native_hash_ws(d, (c["lang"], c["form"], c["position"]))
+        elif c["op"] == "fold":
             texts = [render_file(kd, i, c["names"][i]) for i, kd in enumerate(c["kinds"])]
             ok, why, _ = native_fold(d, texts, c["multi"], c)
         else:
-            ok, why, _ = native_hash(d, c["lang"], c["multi"])
+            ok, why, _ = native_hash(d, c["lang"], c["multi"], c.get("tree", "basic"))
         print(why)
         return 1 if ok else 0
     finally:
